@@ -45,7 +45,10 @@ type Contract struct {
 	Mode     string // "", "word", "int"
 	Trusted  string // non-empty: assumed contract (reason); body not verified
 	Panics   bool   // function may panic outside its precondition by design
-	Uses     []Clause
+	Uses     []string // lemma procedures whose quantified closure is available as a premise
+	Decreases *Clause // termination measure (recursive functions / lemma procedures)
+	IsLemma  bool
+	Trigger  []Clause
 	File     string
 	Line     int
 	Iface    bool // contract of an interface method
@@ -199,7 +202,7 @@ func loadProgram(repo string) (*Program, error) {
 	return p, nil
 }
 
-var kwRe = regexp.MustCompile(`^(spec|opaque|contract|iface|requires|ensures|modifies|loop|mode|trusted|panics|use|end)\b`)
+var kwRe = regexp.MustCompile(`^(spec|opaque|contract|iface|requires|ensures|modifies|loop|mode|trusted|panics|use|decreases|lemma|trigger|end)\b`)
 
 func (p *Program) parseContractFile(path, short string) error {
 	fh, err := os.Open(path)
@@ -301,7 +304,11 @@ func (p *Program) parseContractFile(path, short string) error {
 				return fmt.Errorf("%s:%d: clause %q outside a contract", path, rc.line, kw)
 			}
 			switch kw {
-			case "requires", "ensures", "use":
+			case "use":
+				cur.Uses = append(cur.Uses, strings.Fields(rest)...)
+			case "lemma":
+				cur.IsLemma = true
+			case "requires", "ensures", "decreases", "trigger":
 				c, err := mkClause(rest, rc.line)
 				if err != nil {
 					return err
@@ -311,8 +318,10 @@ func (p *Program) parseContractFile(path, short string) error {
 					cur.Requires = append(cur.Requires, c)
 				case "ensures":
 					cur.Ensures = append(cur.Ensures, c)
-				default:
-					cur.Uses = append(cur.Uses, c)
+				case "decreases":
+					cur.Decreases = &c
+				case "trigger":
+					cur.Trigger = append(cur.Trigger, c)
 				}
 			case "modifies":
 				cur.ModGiven = true
